@@ -92,28 +92,33 @@ class C20(Prop):
     design_ref = 'DESIGN.md §4 C20'
     technique = ('Lean 4 proof by induction over schedules of a step-machine model of the helpers (steps = what happens between two quiescent '
                  'states of the event loop) + differential correspondence with the real helpers under a deterministic asyncio loop')
-    level_text = ('Theorems for all schedules (all completion orders, all failure patterns, all semaphore sizes, any number of tasks): running '
-                  'bodies + free permits equal a budget determined by the helper state (permit accounting), hence at most n bodies run at '
-                  'once under bounded_gather2 / OnlineBoundedGather2 called by a permit holder and under bounded_gather(parallelism=n) — '
-                  'always for return_exceptions, cancel_on_error=True and the online pool, and for cancel_on_error=False until the helper '
-                  'raises (after that n+1 can run: open finding F4, refuted on its witness); a returned list is the scripted outcomes in '
-                  'submission order, every slot a value or an exception; the raised exception is the first one in schedule order (also for '
-                  'OnlineBoundedGather2, body exception included); after a normal return, after a cancel_on_error raise and after leaving '
-                  'the online pool every task is finished and none was pending at that instant. The three repaired defects (b83b6cc09, '
-                  '2f78d4573, 426463a22) are kept as a pre-repair model variant refuted on their witnesses. The model is tied to the real '
-                  'helpers by comparing (task states, sema._value, helper result, tasks unfinished at return, peak concurrency) after every '
-                  'step of random and exhaustive small schedules.')
+    level_text = ('Theorems for all schedules (all completion orders, all failure patterns incl. bodies that end in CancelledError, the '
+                  'cancellation of the helper\'s caller at any moment, all semaphore sizes, any number of tasks): running bodies + free '
+                  'permits equal a budget determined by the helper state (permit accounting), hence at most n bodies run at once under '
+                  'bounded_gather2 / OnlineBoundedGather2 called by a permit holder and under bounded_gather(parallelism=n) — always for '
+                  'return_exceptions and cancel_on_error=True, for cancel_on_error=False until the helper raises (open finding F4) and for '
+                  'the online pool unless its exit is cancelled (open finding F5); both exceptions are refuted on their witnesses; a '
+                  'returned list is the scripted outcomes in submission order; a helper that raised, raised the first exception in '
+                  'schedule order it gets to see (task failure, cancelled child, body exception, cancellation of the caller; '
+                  'return_exceptions raises only the latter); after a normal return, after ANY raise of cancel_on_error=True or of '
+                  'return_exceptions (also by cancellation) and after the online pool returned or shut down, every task is finished and '
+                  'none was pending at that instant; "no task pending when the pool is left" is refuted for a caller cancelled inside '
+                  '__aexit__ (F5). The three repaired defects (b83b6cc09, 2f78d4573, 426463a22) are kept as a pre-repair model variant '
+                  'refuted on their witnesses. The model is tied to the real helpers by comparing (task states, sema._value, helper '
+                  'result, tasks unfinished at return, peak concurrency) after every step of random and exhaustive small schedules.')
     level_note = ('partial: asyncio.gather / wait / shield / Semaphore / Event / Task.cancel are modelled from their documented behaviour '
-                  '(FIFO wake-ups, permit handed over at release, gather propagates the first exception and leaves the rest running), not '
-                  'verified; the correspondence with CPython 3.12 on <= 5 tasks x failure patterns x semaphore sizes 1..3 is what validates '
-                  'that. Task bodies block on one gate and end at once when cancelled. One genuine defect remains open (F4: '
-                  'WithoutSemaphore does not re-acquire on error while the caller still releases, so after a failed '
-                  'cancel_on_error=False gather n+1 bodies can run); three others found by this check were repaired.')
+                  '(FIFO wake-ups, permit handed over at release, gather propagates the first exception and leaves the rest running, a '
+                  'cancelled child counts as raising CancelledError, cancelling the gather cancels its children), not verified; the '
+                  'correspondence with CPython 3.12 on <= 5 tasks x outcome patterns x semaphore sizes 1..3 x cancellation points is what '
+                  'validates that. In the model a cancelled body ends in the step that cancels it; bodies whose clean-up takes several '
+                  'loop iterations are exercised on the real code only (extra checks: the clean-up clauses of the property, no model). '
+                  'Two genuine defects are open (F4 permit not re-acquired on error; F5 pool exit cancelled while waiting abandons the '
+                  'tasks); three others found by this check were repaired.')
     budget = {'quick': 2500, 'thorough': 30000}
     search_budget = {'quick': 3000, 'thorough': 30000}
     rule = ('case = (helper flavour rx|rf|rc|on, entry hold = caller holds one permit of Semaphore(n) | bg = bounded_gather(parallelism=n), '
             'scripted outcome per task, schedule); each task body increments a counter, blocks on a harness gate and ends with its outcome; '
-            'op f i opens the gate of task i, op b ends the body of the `async with OnlineBoundedGather2` block; after every op the loop '
+            'op f i opens the gate of task i (outcome r value / e exception / c the body ends in CancelledError), op b ends the body of the `async with OnlineBoundedGather2` block, op x cancels the task that called the helper; after every op the loop '
             'runs to quiescence and (state of every task body, sema._value, helper state/result, number of helper-created tasks unfinished '
             'at the instant the helper returned or raised, peak of the running counter during the step) is compared with the model. '
             'non-trivial = at least one task had to wait for a permit or an exception occurred; distinct by full case')
